@@ -245,9 +245,9 @@ def mixture_histories(ctx, r, n):
             if method == 'equilibrium' and 'slow' not in states[sid]:
                 t0 = time.time()
                 try:
-                    with S.quiet():
+                    with S.quiet(), c09.time_limit(1.0):
                         fm.equilibrium(np.array(states[sid]['m']), states[sid]['T'], states[sid]['P'])
-                except Exception:
+                except Exception:       # incl. c09.FlashTimeout
                     pass
                 states[sid]['slow'] = (time.time() - t0) > 0.06
             if method == 'equilibrium' and states[sid]['slow']:
@@ -789,11 +789,11 @@ def run(ctx, lean_ok):
                'TamocV.Props.C19.blowout_refines_fresh is the one that applies to it', bool(VARIANT['revisit']),
                'q_type is not revisited: the witness of TamocV.Props.C19.not_blowout_refines_fresh reproduces on the real code')
     lines, owners = [], []
-    mixture_histories(ctx, r, ctx.n(60, 1500))
-    particle_histories(ctx, r, ctx.n(45, 900), lines, owners)
-    profile_histories(ctx, r, ctx.n(40, 800), lines, owners)
-    coefs_cases(ctx, r, ctx.n(40, 600), lines, owners)
-    blowout_sequences(ctx, r, ctx.n(16 + 14, 16 + 300), lines, owners)
+    mixture_histories(ctx, r, ctx.n(60, 800))
+    particle_histories(ctx, r, ctx.n(45, 400), lines, owners)
+    profile_histories(ctx, r, ctx.n(40, 400), lines, owners)
+    coefs_cases(ctx, r, ctx.n(40, 400), lines, owners)
+    blowout_sequences(ctx, r, ctx.n(16 + 14, 16 + 150), lines, owners)
     for k, (d, x, text) in sorted(ctx.notes_raise.items()):
         ctx.notes.append('C20 finding candidate key=raises:%s first: %s on %r inputs %r' % (k, text, d, x))
 
